@@ -13,6 +13,8 @@ import (
 )
 
 type fmtCall struct {
+	site   *ssa.Call // the call instruction in the analysed function (the fmt call itself, or the call of the helper that contains it)
+	sy     *symb     // renders operands in terms of the analysed function (helper parameters substituted)
 	call   *ssa.Call
 	fn     string     // Fprintf, Fprint, Fprintln
 	w      ssa.Value  // destination
@@ -21,8 +23,13 @@ type fmtCall struct {
 	args   []ssa.Value // operand values (MakeInterface unwrapped)
 }
 
-// fmtCallsIn lists the fmt.Fprint* calls of f in block order.
+// fmtCallsIn lists the fmt.Fprint* calls of f in block order, including those made by module helpers that
+// f hands its writer to (their operands are rendered with the helper's parameters replaced by f's arguments).
 func fmtCallsIn(f *ssa.Function) []*fmtCall {
+	return fmtCallsDeep(f, newSymb(f), nil, 0)
+}
+
+func fmtCallsDeep(f *ssa.Function, sy *symb, site *ssa.Call, depth int) []*fmtCall {
 	var out []*fmtCall
 	for _, b := range f.Blocks {
 		for _, in := range b.Instrs {
@@ -36,9 +43,43 @@ func fmtCallsIn(f *ssa.Function) []*fmtCall {
 			}
 			qn := qname(callee)
 			if qn != "fmt.Fprintf" && qn != "fmt.Fprint" && qn != "fmt.Fprintln" {
+				// a module helper that receives an io.Writer: look inside
+				if depth < 2 && callee.Blocks != nil && callee.Pkg == f.Pkg && callee != f {
+					passesWriter := false
+					for _, a := range call.Call.Args {
+						if n, ok := a.Type().(*types.Named); ok && n.Obj().Pkg() != nil && n.Obj().Pkg().Path() == "io" && n.Obj().Name() == "Writer" {
+							passesWriter = true
+						}
+					}
+					if passesWriter {
+						sub := newSymb(callee)
+						for i, p := range callee.Params {
+							if i < len(call.Call.Args) {
+								sub.subst[p] = sy.expr(call.Call.Args[i])
+							}
+						}
+						top := site
+						if top == nil {
+							top = call
+						}
+						for _, fc := range fmtCallsDeep(callee, sub, top, depth+1) {
+							// the writer: map the helper's parameter back to the caller's argument
+							for i, p := range callee.Params {
+								if fc.w == ssa.Value(p) && i < len(call.Call.Args) {
+									fc.w = call.Call.Args[i]
+								}
+							}
+							out = append(out, fc)
+						}
+					}
+				}
 				continue
 			}
-			fc := &fmtCall{call: call, fn: strings.TrimPrefix(qn, "fmt."), w: call.Call.Args[0]}
+			top := site
+			if top == nil {
+				top = call
+			}
+			fc := &fmtCall{site: top, sy: sy, call: call, fn: strings.TrimPrefix(qn, "fmt."), w: call.Call.Args[0]}
 			rest := call.Call.Args[1:]
 			if fc.fn == "Fprintf" {
 				fc.fmtVal = rest[0]
